@@ -91,7 +91,9 @@ class FeWorld(fsm.FsmWorld):
             ctx.site_path = ''
         secret = os.path.join(d, 'secret')
         os.makedirs(os.path.join(secret, 'deep'), exist_ok=True)
-        self.canaries = [os.path.join(secret, 'canary.txt'), os.path.join(secret, 'deep', 'index.html'), os.path.join(d, 'db', 'private.key')]
+        os.makedirs(os.path.join(d, 'fe-private'), exist_ok=True)  # a sibling whose name merely starts like a root
+        self.canaries = [os.path.join(secret, 'canary.txt'), os.path.join(secret, 'deep', 'index.html'), os.path.join(d, 'db', 'private.key'),
+                         os.path.join(d, 'fe-private', 'sibling.txt')]
         for i, c in enumerate(self.canaries):
             self.write(c, f'canary{i}')
         # symlinks inside the roots: one pointing inside, two pointing out (file and directory)
